@@ -66,6 +66,8 @@ def cases(tier, seed):
         out.append({"kind": "long", "histories": hs, "seed": seed})
     for j in range(0, 48 if tier == "quick" else 2400, 12):
         out.append({"kind": "dynamic-churn", "from": j, "count": 12, "seed": seed})
+    for j in range(0, 40 if tier == "quick" else 2000, 10):
+        out.append({"kind": "dynamic-cutter", "from": j, "count": 10, "seed": seed})
     ndyn = 60 if tier == "quick" else 4000
     for j in range(0, ndyn, 10):
         out.append({"kind": "dynamic", "from": j, "count": 10, "seed": seed})
@@ -310,6 +312,49 @@ def execute(mat, ctx):
             got = in_child(lambda: mk_and_query(True))
             judge(ctx, seed, [gen.class_name(prime_with) if prime_with in gen.concrete_kit_classes() else prime_with.__name__],
                   "Dyn%d(%s,%s)%s" % (j, pb.__name__, rb.__name__, sig), got, base, extra="dynamic-subclass-defined-after-priming")
+    elif kind == "dynamic-cutter":
+        # a user's subclass of a typed kit part that only swaps the enzyme (any supported geometry, so the inherited signature may
+        # be longer or shorter than the new overhang): same signature as its parent, other cutter; queried after the parent was used
+        from moclo.core.parts import AbstractPart
+        parts = [c for c in gen.concrete_kit_classes() if issubclass(c, AbstractPart) and not isinstance(c.__dict__.get("structure"), staticmethod)]
+        for j in range(mat["from"], mat["from"] + mat["count"]):
+            rng = gen.rng_for(seed, PROP, "dyncut", j)
+            P = parts[rng.randrange(len(parts))]
+            ename = rng.choice([e for e in gen.enzyme_names() if gen.enzyme(e) is not P.cutter])
+
+            def mk():
+                return type(str("DynCut%d" % j), (P,), {"cutter": gen.enzyme(ename)})
+
+            def dyn_texts():
+                # written out from the enzyme's geometry and the inherited signature (never asks the class for its structure)
+                from moclo.core.vectors import AbstractVector
+                from ..util import rc as _rc
+                from .. import refmodel
+                site, nn, kk = refmodel.geometry(gen.enzyme(ename))
+                up, down = P.signature
+                r2 = gen.rng_for(seed, PROP, "dyncutprobe", j)
+                out = []
+                for _ in range(2):
+                    u, d = gen.instance(r2, up), gen.instance(r2, down)
+                    body = gen.rand_dna(r2, r2.randint(2, 14))
+                    if issubclass(P, AbstractVector):
+                        t = gen.rand_dna(r2, 1) + d + gen.rand_dna(r2, nn) + _rc(site) + body + site + gen.rand_dna(r2, nn) + u + gen.rand_dna(r2, 1)
+                    else:
+                        t = site + gen.rand_dna(r2, nn) + u + gen.rand_dna(r2, 1) + body + gen.rand_dna(r2, 1) + d + gen.rand_dna(r2, nn) + _rc(site)
+                    t += gen.rand_dna(r2, 12)
+                    out.append(rot_left(t, r2.randrange(len(t))))
+                tp = gen.instance(r2, P.structure(), run_max=12) + gen.rand_dna(r2, 12)
+                out.append(rot_left(tp, r2.randrange(len(tp))))
+                return out
+
+            dtexts = in_child(dyn_texts)
+            tprime = probe_texts(seed, P)
+            base = in_child(lambda: answer(seed, mk(), dtexts))
+            got = in_child(lambda: (answer(seed, P, tprime), {"answers": answer(seed, mk(), dtexts), "stale": None})[1])
+            ctx.count("c06_dynamic_cutter_subclasses")
+            judge(ctx, seed, [gen.class_name(P)], "DynCut%d(%s, cutter=%s)" % (j, P.__name__, ename), got, base,
+                  extra="subclass-with-another-cutter-queried-after-its-parent")
+        ctx.sample({"kind": kind, "from": mat["from"]}, cap=1)
     elif kind == "dynamic-churn":
         # run-time subclasses that come and go in one interpreter: each is created, used once and dropped (and collected) before
         # the next one is created; every answer is compared with the same class created and queried first in a fresh interpreter
